@@ -393,8 +393,19 @@ def F_rules(ctx, rule="F"):
                                 # payload .1 is the collected vector
                                 esrc = fl.sources_local(par, 0, ("E", 1))
                                 errs = errs and bool(esrc) and set(esrc) == set(vsrc)
+                # nothing rewrites the collected vector between the drain and the return
+                for mbb, mt in par.calls():
+                    mp = callee_path(mt) or ""
+                    if mp.endswith("Vec::<T, A>::push") or mp in ("std::ops::Deref::deref", "std::ops::DerefMut::deref_mut"):
+                        continue
+                    for a_ in mt["args"]:
+                        if a_["k"] != "const" and a_["pl"]["ty"].startswith(("&mut std::vec::Vec<", "&mut [")) and \
+                                set(fl.sources_operand(par, a_)) & set(vsrc):
+                            is_coll = False
+                            why = "the collected errors are modified by %s before being returned" % mp
                 okret = bool(is_coll and oks and errs)
-                why = "Ok when empty: %s, Err((outcome, results)) with the collected vector otherwise: %s" % (oks, errs)
+                if is_coll or not str(why).startswith("the collected errors are modified"):
+                    why = "Ok when empty: %s, Err((outcome, results)) with the collected vector otherwise: %s" % (oks, errs)
         ctx.check(okret, rule + "3", "err-iff-nonempty|%s" % key, m.where(par),
                   "the call returns Err((outcome, errors)) iff the collected error vector is non-empty, carrying it unchanged", why)
     # F5: try-fold
@@ -922,6 +933,48 @@ def O5(ctx, rule="O5"):
         ctx.unverifiable(rule, "floor", "-", "expected >= 4 StreamOutcome::new call sites on the streaming paths, found %d" % n_new)
 
 
+def O6(ctx, rule="O6"):
+    """Every dequeued id is handed to the caller: in each per-item body the
+    call of the user's function is control dependent only on the dequeued
+    `Option<id>` being `Some` (and on await plumbing) -- no flag, lock state or
+    earlier failure lets the body skip an id that the ready stream has already
+    recorded as processed."""
+    m, fb, fl = ctx.model, ctx.fb, ctx.model.flow
+    seen = set()
+    n = 0
+    for e in m.entries:
+        if m.family(e) == "stream":
+            continue
+        for b in m.per_item_bodies(e["id"]):
+            if b.id in seen:
+                continue
+            seen.add(b.id)
+            pcs = m.param_calls(b)
+            for bb, t, pn in pcs:
+                if not user_awaits(ctx, b) and b.kind == "closure":
+                    continue        # adapter closure of a control wrapper: runs inside another per-item body
+                n += 1
+                ctx.cover(rule, b.id)
+                bad = []
+                lr = loop_region(ctx, b, bb)
+                for sb, de, vals in cond_guards(b, bb):
+                    if (b.blocks[sb]["term"].get("sp") or {}).get("desugar") == "Await":
+                        continue
+                    if lr is not None and lr.get("switch_bb") == sb:
+                        continue
+                    ex = strip_refs(de)
+                    if ex.kind == "discr":
+                        srcs = sources_of_expr(ctx, b, strip_refs(ex[1]))
+                        if srcs and m.is_ready_item(srcs) and "1" in vals:
+                            continue
+                    bad.append(fmt_expr(ex, b))
+                ctx.check(not bad, rule, "handed-out|%s" % short(b.id), m.where(b, bb),
+                          "the user's function is called for every id dequeued from the ready stream (only guard: the dequeued Option is Some)",
+                          "the call of the user's function is additionally guarded by %s: a dequeued id, already recorded as processed, can be skipped" % bad[:3])
+    ctx.counts[rule] = n
+    ctx.entry_floor(rule, rule, ("fold", "for_each", "try_fold", "try_for_each"), "per-item body calling the user's function")
+
+
 def O3b(ctx, rule="O3b"):
     """the countdown of remaining functions is decremented for every item that
     was handed out, whatever the user future returned (else the final state is
@@ -973,6 +1026,22 @@ def O3b(ctx, rule="O3b"):
                 paths_ok = bool(dec_blocks) and not (b.reachable(a.ready_bb, avoid=set(dec_blocks) | set(frs)) & set(exits))
             else:
                 paths_ok = bool(dec_blocks) and b.all_paths_pass(a.ready_bb, dec_blocks, exits)
+            # ... and only for an item that carried an id: a bare interruption notice (`Interrupted(None)`) counts nothing off
+            own_decs = [bb for bb, si, s_ in b.stmts() if bb in dec_blocks] or dec_blocks
+            ung = []
+            for dbb in sorted(set(dec_blocks)):
+                some_guard = False
+                for sb, de, vals in cond_guards(b, dbb):
+                    ex = strip_refs(de)
+                    if ex.kind == "discr" and "1" in vals:
+                        srcs_ = sources_of_expr(ctx, b, strip_refs(ex[1]))
+                        if srcs_ and m.is_ready_item(srcs_):
+                            some_guard = True
+                if not some_guard:
+                    ung.append(dbb)
+            ctx.check(not ung, rule, "countdown-only-items|%s" % short(b.id), m.where(b, (ung or dec_blocks or [0])[0]),
+                      "the countdown is decremented only under `Some(id)` of the dequeued item",
+                      "the countdown is decremented even when the dequeued item carries no id (interruption notice): it underflows / reports Finished with functions left")
             ctx.check(paths_ok, rule, "countdown-every-item|%s" % short(b.id), m.where(b, a.into_bb),
                       "after the user future completes, every path to the end of the per-item body decrements the countdown of remaining functions",
                       "a path from the completion of the user future to the end of the per-item body skips the countdown decrement (decrement blocks %s): the outcome state becomes Interrupted although the function was processed" % dec_blocks)
@@ -1064,15 +1133,23 @@ def Q_rules(ctx, rule="Q"):
             continue
         topo_new = []
         topo_step = []
+        def graph_sources(bx, op):
+            # through a shared private helper: resolve its parameter at the call site in this public method
+            if bx.id != b.id and bx.kind == "fn":
+                from rules_build import lift_expr
+                e_, fr = lift_expr(ctx, b, bx, strip_refs(expr_operand(bx, op)))
+                if fr.id == b.id:
+                    return sources_of_expr(ctx, b, e_)
+            return fl.sources_operand(bx, op)
         for bx in m.reach_bodies(b.id):
             for bb, t in bx.calls():
                 p = callee_path(t)
                 if p == TOPO_NEW:
-                    topo_new.append((bx, bb, t, fl.sources_operand(bx, t["args"][0])))
+                    topo_new.append((bx, bb, t, graph_sources(bx, t["args"][0])))
                 elif p == TOPO_NEXT:
-                    topo_step.append((bx, bb, t, fl.sources_operand(bx, t["args"][1])))
+                    topo_step.append((bx, bb, t, graph_sources(bx, t["args"][1])))
                 elif p == WALKER_ITER and "Topo<" in (t["args"][0].get("pl", {}).get("ty", "")):
-                    topo_step.append((bx, bb, t, fl.sources_operand(bx, t["args"][1])))
+                    topo_step.append((bx, bb, t, graph_sources(bx, t["args"][1])))
         if not topo_new:
             continue
         if f["name"] not in want:
@@ -1364,13 +1441,17 @@ def G_rules(ctx, rule="G"):
         if b is None:
             ctx.unverifiable(rule + "4", "missing|%s" % nm, "-", "GraphInfo::%s not found" % nm)
             continue
-        tn = [(bb, t) for bb, t in b.calls() if callee_path(t) == TOPO_NEW]
-        ts = [(bb, t) for bb, t in b.calls() if callee_path(t) == WALKER_ITER]
+        tn = [(bx, bb, t) for bx in m.reach_bodies(b.id) if bx.kind == "fn" for bb, t in bx.calls() if callee_path(t) == TOPO_NEW]
+        ts = [(bx, bb, t) for bx in m.reach_bodies(b.id) if bx.kind == "fn" for bb, t in bx.calls() if callee_path(t) == WALKER_ITER]
         ok4 = False
         why = "Topo::new/iter sites: %d/%d" % (len(tn), len(ts))
         if len(tn) == 1 and len(ts) == 1:
-            e1 = strip_refs(expr_operand(b, tn[0][1]["args"][0]))
-            e2 = strip_refs(expr_operand(b, ts[0][1]["args"][1]))
+            from rules_build import lift_expr
+            e1, f1 = lift_expr(ctx, b, tn[0][0], strip_refs(expr_operand(tn[0][0], tn[0][2]["args"][0])))
+            e2, f2 = lift_expr(ctx, b, ts[0][0], strip_refs(expr_operand(ts[0][0], ts[0][2]["args"][1])))
+            e1, e2 = strip_refs(e1), strip_refs(e2)
+            if f1.id != b.id or f2.id != b.id:
+                e1 = e2 = E(("unknown", "Topo built in a helper reached from several call sites"))
             is_rev1 = e1.kind == "agg" and (e1[2] or "").endswith("visit::Reversed")
             is_rev2 = e2.kind == "agg" and (e2[2] or "").endswith("visit::Reversed")
             s1 = sources_of_expr(ctx, b, e1[4][0] if is_rev1 else e1)
